@@ -18,7 +18,7 @@ from harness.lib import sym2coq as sc
 from harness.lib.core import JOBS, VERIF, source_sha
 
 LEVEL = 'proof'
-IMPORTS = 'Base.PyData Base.Expr Base.Interp Base.Stmts C05.Model C05.Check'
+IMPORTS = 'Base.PyData Base.Expr Base.Interp Base.Stmts C05.Model C05.ToCs C05.Check'
 
 TAGS = {
     1: 'builder result (node order / adjacency order / errors / predecessors of output) differs from model',
@@ -29,6 +29,7 @@ TAGS = {
     6: 'to_dict differs from model',
     7: 'from_dict / == differ from model',
     8: 'subs differs from model',
+    9: 'to_compartmental_system differs from model (C05/ToCs.v)',
     11: 'compartment order is not a permutation of the compartments',
     12: 'names / amounts / inputs / eqs / matrix do not share one compartment order',
     13: 'eqs are not M*A + u entrywise',
@@ -38,8 +39,10 @@ TAGS = {
     17: 'from_dict(to_dict(cs)) == cs is not True',
     18: 'to_compartmental_system(names, eqs) does not give equivalent equations',
     19: 'subs changed the structure or the value of a flow / input / lag time / bioavailability',
+    21: 'subs changed the compartment order (compartment_names)',
+    20: 'to_compartmental_system(names, eqs) of a linear system with distinct rates lost or changed a flow / input',
 }
-CORR = (1, 2, 3, 4, 5, 6, 7, 8)
+CORR = (1, 2, 3, 4, 5, 6, 7, 8, 9)
 # oracle tag -> (correspondence tags that must be absent for the model to explain the failure,
 #                guard tag that must be present, finding id)
 # C05-SELF-FLOW (34eef54) and C05-EQ-RAISES-NO-DOSE (876afb2) are fixed in /repo: open_finding() is None for them,
@@ -48,7 +51,8 @@ ORACLE = {
     11: ((1, 3), None, None), 12: ((3, 5), None, None), 13: ((3, 4, 5), None, None),
     14: ((1, 3, 4), 201, 'C05-SELF-FLOW'), 15: ((1, 3, 5), 201, 'C05-SELF-FLOW'),
     16: ((6, 7), None, None), 17: ((7,), 202, 'C05-EQ-RAISES-NO-DOSE'),
-    18: ((), None, None), 19: ((8,), None, None),
+    18: ((), None, None), 19: ((8,), None, None), 20: ((9,), None, None),
+    21: ((8,), 207, 'C05-SUBS-REORDERS'),
 }
 
 COMP_NAMES = ['CENTRAL', 'PERIPHERAL1', 'PERIPHERAL2', 'DEPOT', 'TRANSIT1', 'METABOLITE', 'EFFECT', 'COMPLEX',
@@ -483,6 +487,49 @@ class Exporter:
         return f"(mkDict {ct.lst(comps)} {ct.lst(rates)} {de(d['t'])})"
 
 
+def export_tocs(ex, m, cs, cs4, order, info):
+    """Input / output of to_compartmental_system for the model C05/ToCs.v: the default compartments, the
+    functions on the left-hand sides, every equation as the list of the arguments of
+    Add.make_args(expand(rhs)) decomposed into (positive?, |coefficient|, index of its amount), and the real
+    result graph.  'None' when a term is outside the modelled class (two amounts, coefficient with amounts)."""
+    from pharmpy.basic import Expr
+    from pharmpy.internals.expr.leaves import free_images
+    eqs = [sympy.sympify(e) for e in cs.eqs]
+    funcs = [e.lhs.args[0] for e in eqs]
+    index = {f: i for i, f in enumerate(funcs)}
+    rows = []
+    for e in eqs:
+        row = []
+        for term in sympy.Add.make_args(sympy.expand(e.rhs)):
+            if term == 0:
+                continue
+            ims = set(funcs) & free_images(term)
+            pos = m._is_positive(term)
+            if len(ims) == 0:
+                k, a = term, None
+            elif len(ims) == 1:
+                f = next(iter(ims))
+                k, a = sympy.cancel(term / f), index[f]
+                if free_images(k):
+                    info['tocs'] = 'nonlinear term'
+                    return "None"
+            else:
+                info['tocs'] = 'second order term'
+                return "None"
+            if not pos:
+                k = -k
+                if not m._is_positive(k):
+                    info['tocs'] = 'term of unknown sign'
+                    return "None"
+            row.append(f"(mkT {ct.boolean(pos)} {ex.expr(Expr(k))} {ct.opt(None if a is None else ct.nat(a))})")
+        rows.append(ct.lst(row))
+    names = [c.name for c in order]
+    cmts = ct.lst([ex.comp(m.Compartment.create(nm)) for nm in names])
+    amts = ct.lst([ex.expr(Expr(f)) for f in funcs])
+    info['tocs'] = 'exported'
+    return f"(Some ({cmts}, {amts}, {ct.lst(rows)}, {ex.graph(cs4._g)}))"
+
+
 def eqres(f):
     try:
         return 'EqTrue' if f() else 'EqFalse'
@@ -563,9 +610,10 @@ def observe(spec, prng, perturb=None):
         sub = {Expr.symbol(k): Expr(v) for k, v in spec['subs'].items()}
         cs3 = cs.subs(sub)
         mp = ct.lst([ct.pair(ex.names.p(k), ex.expr(Expr(v))) for k, v in spec['subs'].items()])
-        subs_t = f"(Some ({mp}, {ex.graph(cs3._g)}))"
+        subs_t = f"(Some ({mp}, {ex.graph(cs3._g)}, {ct.lst([ex.name(x) for x in cs3.compartment_names])}))"
         info['subs'] = True
     reb_t = "None"
+    tocs_t = "None"
     if spec.get('rebuild') and n and not spec.get('t'):   # to_compartmental_system hard-codes the idv t
         nm = {c.amount: c.name for c in order}
         try:
@@ -576,6 +624,7 @@ def observe(spec, prng, perturb=None):
                 byname[nm[fn]] = e.rhs
             reb_t = "(Some " + ct.lst([ct.pair(ex.name(k), ex.expr(v)) for k, v in byname.items()]) + ")"
             info['rebuilt'] = 'ok'
+            tocs_t = export_tocs(ex, m, cs, cs4, order, info)
         except Skip:
             raise
         except Exception as e:       # the conversion itself failed: reported as an empty system
@@ -597,7 +646,7 @@ def observe(spec, prng, perturb=None):
     body = ("(mkCase " + ops_t + "\n " + errs_t + "\n " + ex.expr(cs.t) + "\n " + graph_t + "\n " + preds + " " + ct.opt(central)
             + " " + ct.opt(dosing) + "\n " + order_t + " " + names_t + "\n " + amounts_t + " " + inputs_t + "\n " + mat_t
             + "\n " + eqs_t + "\n " + dict_t + "\n " + rt_t + " " + rt_eq + "\n " + other_t + "\n " + subs_t + "\n " + reb_t
-            + "\n " + envs + ")")
+            + "\n " + tocs_t + "\n " + envs + ")")
     lets = ''.join(f"let {v} := {t} in\n " for v, t in ex.cdefs)
     return "(" + lets + body + ")", info
 
@@ -671,10 +720,46 @@ def run_specs(ctx, specs, label, quiet=False):
     return kept, verdicts, infos
 
 
+HASHSEED_PROBE = (
+    "import json,sys\n"
+    "from harness.props import c05\n"
+    "from pharmpy.basic import Expr\n"
+    "spec=json.loads(sys.argv[1])\n"
+    "cs,_=c05.run_ops(spec['ops'], spec.get('t'))\n"
+    "cs2=cs.subs({Expr.symbol(k): Expr(v) for k,v in spec['subs'].items()})\n"
+    "print('PROBE', json.dumps([cs2.compartment_names, cs2.central_compartment.name,"
+    " [c.get('name','') for c in cs2.to_dict()['compartments']]]))\n")
+
+
+def hashseed_probe(spec, seeds):
+    """Run cs.subs of the witness in one subprocess per PYTHONHASHSEED; returns {seed: observation}."""
+    import subprocess
+    import sys
+    procs = {}
+    for sd in seeds:
+        env = dict(os.environ, PYTHONHASHSEED=str(sd))
+        procs[sd] = subprocess.Popen([sys.executable, '-c', HASHSEED_PROBE, json.dumps(spec)], env=env, cwd=str(VERIF),
+                                     stdout=subprocess.PIPE, stderr=subprocess.DEVNULL, text=True)
+    out = {}
+    for sd, p in procs.items():
+        o, _ = p.communicate(timeout=300)
+        line = [x for x in o.split('\n') if x.startswith('PROBE')]
+        out[sd] = line[0][6:] if line else None
+    return out
+
+
 def finding_probes(ctx):
     """Replay the stored witness of every open finding on the real code."""
     for f in ctx.findings:
         if f.get('status') != 'open':
+            continue
+        if f.get('probe') == 'hashseed':
+            obs = hashseed_probe(f['witness'], f.get('hashseeds', [0, 1, 2, 3]))
+            ctx.coverage.setdefault('hashseed_probe', {})[f['id']] = obs
+            if None not in obs.values() and len(set(obs.values())) > 1:
+                ctx.known(f['id'])
+            else:
+                ctx.notes.append(f"finding_not_reproduced {f['id']} (observations {obs})")
             continue
         kept, verdicts, _ = run_specs(ctx, [f['witness']], 'finding-' + f['id'], quiet=True)
         tags = set(verdicts[0]) if verdicts else set()
@@ -712,7 +797,7 @@ def run(ctx):
     reg = sorted((VERIF / 'regress' / 'C05').glob('*.json'))
     specs = [json.loads(p.read_text()) for p in reg]
     specs = [s.get('spec', s) for s in specs]
-    n = 400 if ctx.tier == 'quick' else 2200
+    n = 300 if ctx.tier == 'quick' else 1800
     specs += [gen_spec(ctx.rng) for _ in range(n)]
     if ctx.tier != 'quick':
         ex = list(gen_exhaustive())
@@ -749,6 +834,10 @@ def run(ctx):
         'other_equal': sum(1 for i in infos if i.get('other', ('', None))[0] == 'EqTrue'),
         'with_subs': sum(1 for i in infos if i.get('subs')),
         'rebuilt_ok': sum(1 for i in infos if i.get('rebuilt') == 'ok'),
+        'to_cs_model_compared': sum(1 for i in infos if i.get('tocs') == 'exported'),
+        'to_cs_outside_model': {k: sum(1 for i in infos if i.get('tocs') == k)
+                                for k in ('nonlinear term', 'second order term', 'term of unknown sign')},
+        'to_cs_linear_distinct_roundtrips': sum(1 for i, v in zip(infos, verdicts) if i.get('tocs') == 'exported' and 205 not in v),
         'rebuilt_raised': sum(1 for i in infos if str(i.get('rebuilt', '')).startswith('raised')),
         'rt_eq': {k: sum(1 for i in infos if i['rt_eq'] == k) for k in ('EqTrue', 'EqFalse', 'EqRaises')},
     }
